@@ -197,8 +197,6 @@ var globalHooks = map[string]string{
 	"ro.OnDroppedNotification": "user-installed hook (setter)",
 }
 
-
-
 const controlsGlobal = `
 var verifControlGlobalMemo sync.Map
 
